@@ -1,18 +1,27 @@
 #!/bin/bash
-# Sensitivity run: applies each mutants/*.patch to /repo in turn, runs the quick
-# tier of every property named in its "# props:" header, expects exit 1, and
-# restores /repo. Usage: tools/selftest.sh [pattern]
-cd /verif || exit 2
-if [ -n "$(git -C /repo status --porcelain --untracked-files=no)" ]; then echo "/repo has uncommitted changes"; exit 2; fi
+# Sensitivity run in an isolated scratch copy (does not touch /repo or /verif):
+# copies /repo (HEAD working tree) and the harness to $ST (default /tmp/vst),
+# applies each mutants/*.patch in turn, runs the quick tier of every property
+# named in its "# props:" header, expects exit 1, and restores the scratch tree.
+# Usage: tools/selftest.sh [pattern]     (results also appended to $ST/results.txt)
+ST=${ST:-/tmp/vst}
 pat="${1:-}"
-for m in mutants/*${pat}*.patch; do
+mkdir -p $ST/verif
+rsync -a --delete --exclude target --exclude .git /repo/ $ST/repo/
+rsync -a --delete --exclude target /verif/harness/ $ST/verif/harness/
+rsync -a --delete /verif/regress/ $ST/verif/regress/
+cp /verif/known_findings.json /verif/run $ST/verif/
+sed -i "s#path = \"/repo#path = \"$ST/repo#g" $ST/verif/harness/Cargo.toml $ST/verif/harness/*/Cargo.toml
+cd $ST/repo && git init -q 2>/dev/null; git add -A >/dev/null 2>&1; git -c user.email=a@b -c user.name=st commit -q -m base >/dev/null 2>&1
+cd $ST/verif
+for m in /verif/mutants/*${pat}*.patch; do
   props=$(head -1 "$m" | sed 's/# props: //')
-  if ! git -C /repo apply "$PWD/$m" 2>/dev/null; then echo "$(basename $m): DOES NOT APPLY"; continue; fi
+  if ! git -C $ST/repo apply "$m" 2>/dev/null; then echo "$(basename $m): DOES NOT APPLY" | tee -a $ST/results.txt; continue; fi
   for p in $props; do
     out=$(VERIF_SEED=${VERIF_SEED:-0} ./run $p quick 2>&1); rc=$?
     orc=$(echo "$out" | grep -m1 '^oracle:' )
-    if [ $rc -eq 1 ]; then echo "$(basename $m) $p: caught ($orc) $(echo "$out" | grep -m1 -o 'cases=[0-9]*')";
-    else echo "$(basename $m) $p: MISSED rc=$rc $(echo "$out" | tail -2 | tr '\n' ' ')"; fi
+    if [ $rc -eq 1 ]; then echo "$(basename $m .patch) $p: caught ($orc) $(echo "$out" | grep -m1 -o 'cases=[0-9]*')" | tee -a $ST/results.txt;
+    else echo "$(basename $m .patch) $p: MISSED rc=$rc $(echo "$out" | grep -v KNOWN | tail -2 | cut -c1-200 | tr '\n' ' ')" | tee -a $ST/results.txt; fi
   done
-  git -C /repo checkout -- .
+  git -C $ST/repo checkout -q -- .
 done
